@@ -1,4 +1,5 @@
 """C19 - a standard audit's footprint on the target is small and bounded."""
+import itertools
 import os
 import random
 
@@ -14,7 +15,7 @@ RULE = ('one case = one real standard or policy audit under the socket / call / 
         '(accepts and closes at once, accepts and stays silent, stops listening, answers "Exceeded MaxStartups", answers slowly, answers normally).  Oracle over the peer\'s connection log and the in-process log: '
         'sockets created <= 1 (+1 SSH-1 fallback) + distinct probed host-key types + 9 x group-exchange algorithms + (41 for the rate check, 0 when skipped / client audit / no DH key exchange); KEXDH_INIT / GEX_REQUEST / GEX_INIT never on the first connection and '
         'at most one exchange per connection; no socket open at exit; DHEat.run / interactive rate test / process spawns never happen.  Non-trivial: the monitor saw >= 1 socket and the peer >= 1 connection; distinct = distinct (server behaviour, options)')
-REQUIRED = {'audits': 100, 'sockets_created': 300, 'connections_logged': 300, 'rate_phase_runs': 10, 'census_checks': 100, 'kex_requests_seen': 50}
+REQUIRED = {'multi_target_footprints': 15, 'audits': 100, 'sockets_created': 300, 'connections_logged': 300, 'rate_phase_runs': 10, 'census_checks': 100, 'kex_requests_seen': 50}
 ASSUMPTIONS = ['"a fixed handful for group-exchange probing" = at most 9 connections per advertised group-exchange algorithm (1 range probe + 7 sizes + 1 OpenSSH follow-up); "a few dozen" for the rate check = at most 38 + 3 connection attempts',
                'closing is decided inside the process (weak-reference census of socket objects at interpreter exit), because at the peer every connection ends at process exit anyway']
 MANIFEST = {
@@ -68,6 +69,10 @@ def cases(tier, seed):
     for beh in ('normal', 'accept-close', 'silent', 'stop-listening', 'serve-some-then-close', 'exceeded', 'slow', 'garbage'):
         for rep_ in range(2 if tier == 'quick' else 10):
             cs.append({'fam': 'rate', 'behaviour': beh, 'gex': rep_ % 2 == 1})
+    # several targets in one run: the footprint on each target follows what that target advertises, whatever was scanned before it
+    for i, order in enumerate([['gex', 'gex', 'plain'], ['plain', 'gex', 'gex'], ['gex', 'plain', 'gex', 'plain']] if tier == 'quick' else [list(o) for o in itertools.product(['gex', 'plain', 'gex1'], repeat=3)]):
+        for th in (1, 2):
+            cs.append({'fam': 'multi', 'order': order, 'threads': th})
     for i in range(3 if tier == 'quick' else 10):
         cs.append({'fam': 'ssh1', 'i': i})
         cs.append({'fam': 'client', 'seed': rng.randrange(1 << 30)})
@@ -252,6 +257,40 @@ def run_case(c):
             return {'verdict': 'inconclusive', 'why': 'rate phase not reached: status %s' % r.status}
         check_footprint(r, pr, k, False, viol, counters, tag='rate:' + beh)
         p = pr
+    elif fam == 'multi':
+        from harness import multi
+        kinds = {'gex': ['curve25519-sha256', 'diffie-hellman-group-exchange-sha256'], 'gex1': ['curve25519-sha256', 'diffie-hellman-group-exchange-sha1', 'diffie-hellman-group-exchange-sha256'], 'plain': ['curve25519-sha256']}
+        targets = []
+        for n in c['order']:
+            kk = audit.sym_kex(kinds[n], ['ssh-ed25519'], ['aes128-ctr'], ['hmac-sha2-256'])
+            targets.append(multi.Target(n, {'banner': 'SSH-2.0-OpenSSH_9.1', 'kex': kk, 'hostkeys': {'ssh-ed25519': {'type': 'ed25519'}}, 'gex': {'sizes': [3072], 'style': 'strict'}}))
+        try:
+            res = multi.run_multi(targets, c['threads'], 'text', monitors=MON, timeout=180)
+        finally:
+            for t in targets:
+                t.stop()
+        r = res['run']
+        if r.timed_out:
+            return {'verdict': 'inconclusive', 'why': 'watchdog'}
+        counters['multi_target_runs'] = 1
+        for t in targets:
+            kk = t.script['kex']
+            b, _rate = budget(kk, True)
+            n = len(t.peer.conns)
+            counters['multi_target_footprints'] = counters.get('multi_target_footprints', 0) + 1
+            if n > b:
+                viol.append(_v('C19/too-many-accepted-connections:multi-target:' + t.name, 'in a multi-target run a target accepted more connections than the budget for what it advertises', accepted=n, budget=b, order=c['order']))
+            asked = {x for e in t.peer.events if e['kind'] == 'client-kexinit' and len(e['kex']) == 1 for x in e['kex']}   # probe connections name exactly one key exchange (the first connection carries the tool's whole list)
+            alien = sorted(x for x in asked if x not in kk['kex'] and not x.startswith(('ext-info', 'kex-strict')))
+            if alien:
+                viol.append(_v('C19/probe-for-unadvertised-kex:multi-target', 'a target was probed with a key exchange it does not advertise', names=alien, order=c['order']))
+        counters['sockets_created'] = sum(1 for e in (r.monitor or []) if e['k'] == 'sock-new' and not e.get('from_fd'))
+        counters['connections_logged'] = sum(len(t.peer.conns) for t in targets)
+        counters['audits'] = len(targets)
+        if counters['sockets_created'] > sum(budget(t.script['kex'], True)[0] for t in targets):
+            viol.append(_v('C19/too-many-connections:multi-target', 'a multi-target run opened more connections than the budgets of its targets together', created=counters['sockets_created'], order=c['order']))
+        p = targets[0].peer
+        k = None
     elif fam == 'ssh1':
         script = {'banner': 'SSH-1.5-OpenSSH_1.2.3', 'proto': 1, 'ssh1': {'cmask': 0x48, 'amask': 0x0c}}
         r, p = audit.audit_server(script, ['-n'], monitors=MON, base=[], timeout=60)
